@@ -738,7 +738,10 @@ class ChannelSpec(ByteSpec):
 
 class VolumeAdjustmentSpec(Spec):
     def read(self, header, frame, data):
-        value, = unpack('>h', data[0:2])
+        try:
+            value, = unpack('>h', data[0:2])
+        except struct.error:
+            raise SpecError("not enough data")
         return value / 512.0, data[2:]
 
     def write(self, config, frame, value):
